@@ -17,6 +17,21 @@ def cond_x(x):
     return 64.0 * EPS * float(np.max(np.abs(x))) / dmin
 
 
+def cond_local(x, a, b):
+    """cond_x of the stretch x[a..b] alone: per-interval quantities (its integral, its weights, its target) are built
+    from differences of ITS abscissae, so a narrow interval near the origin is well conditioned however far away and
+    however coarse the rest of the grid is"""
+    a = max(int(a), 0)
+    b = min(int(b), len(x) - 1)
+    if b <= a:
+        return 0.0
+    seg = np.asarray(x[a:b + 1], dtype=float)
+    dmin = float(np.min(np.abs(np.diff(seg))))
+    if dmin == 0:
+        return float("inf")
+    return 64.0 * EPS * float(np.max(np.abs(seg))) / dmin
+
+
 def rel_for(x=None, extra=0.0):
     r = REL + extra
     if x is not None:
